@@ -65,6 +65,8 @@ def universe():
         u.append(Union[a, b])
         u.append(a | b)
     u += [list[int] | None, Union[list[str], int], list[A] | list[B], Union[dict[str, int], None]]
+    # unions of THREE members (a wider producer union can still fit a narrower consumer union: several members may be covered by one)
+    u += [Union[int, bool, None], Union[A, B, None], Union[int, str, None], Union[list[int], list[str], None], Union[B, bool, str], int | str | bytes]
     return u
 
 
@@ -180,7 +182,8 @@ def exhaustive(tier, ev, holder):
 
 FLAWS = ["unknown_gate_target", "duplicate_node_name", "bad_node_name", "bad_output_name", "bad_graph_name", "default_in_one_only", "different_defaults",
          "wait_for_unproduced", "edge_unknown_node", "edge_unknown_value", "unrelated_second_producer", "strict_incompatible", "strict_missing_annotation",
-         "strict_second_producer_incompatible", "strict_ordering_edge_ok"]
+         "strict_second_producer_incompatible", "strict_ordering_edge_ok",
+         "name_of_nested_graph_taken", "wait_for_hidden_inner_output"]
 
 
 @st.composite
@@ -308,11 +311,14 @@ def _part_a(case, ev):
         out[i].update(changes)
         return out
 
-    def run(tag, flawed_nodes, pos, last=None, **kw):
+    def run(tag, flawed_nodes, pos, last=None, nested_off=False, **kw):
         nonlocal sites, later_site
         sites += 1
         later_site = later_site or pos > 0
         ctx2 = Ctx(compact=True)
+        if nested_off:
+            _expect_rejected(f"{flaw} {tag}", lambda: _construct(ctx2, flawed_nodes, nested=False, **kw))
+            return
         if via_add and last is not None:
             # the node that completes the mistake is the one handed to add_nodes()
             flawed_nodes = [n for n in flawed_nodes if n["name"] != last] + [n for n in flawed_nodes if n["name"] == last]
@@ -374,6 +380,31 @@ def _part_a(case, ev):
                     d = {**n["defaults"], p: ["other_value", p]}
                 params = [q for q in n["params"] if q not in d] + [q for q in n["params"] if q in d]
                 run(f"parameter {p!r} in node #{i}", variant(i, defaults=d, params=params), i)
+    elif flaw == "name_of_nested_graph_taken":
+        # a nested graph node called `gwn` sits beside the program; another node calls a DATA output, or an EMIT signal, like it
+        gw = {"k": "graph", "name": "gwn", "graph": {"name": "gwn", "nodes": [{"k": "func", "name": "gwn_inner", "params": [], "defaults": {}, "outs": ["gwn_out"]}]}}
+        ctx2 = Ctx(compact=True)
+        _expect_accepted(f"{flaw} baseline with the nested graph", lambda: _construct(ctx2, nodes + [gw], nested=False))
+        for i in funcs:
+            run(f"node #{i} has a data output called like the nested graph node", variant(i, outs=list(nodes[i]["outs"]) + ["gwn"]) + [gw], i, nested_off=True)
+            run(f"node #{i} emits a signal called like the nested graph node", variant(i, emit=list(nodes[i].get("emit", [])) + ["gwn"]) + [gw], i, nested_off=True)
+    elif flaw == "wait_for_hidden_inner_output":
+        # `hid` is produced INSIDE a nested graph but not exposed by it (dropped by the inner select, or renamed on the wrapper): an
+        # outer node that waits for `hid` waits for a name nobody produces; waiting for the exposed name is fine
+        for how in ("select", "rename"):
+            inner = {"name": "hw", "nodes": [{"k": "func", "name": "hw_a", "params": [], "defaults": {}, "outs": ["hid"]}, {"k": "func", "name": "hw_b", "params": [], "defaults": {}, "outs": ["shown"]}]}
+            gw = {"k": "graph", "name": "hw", "graph": inner}
+            exposed = "shown"
+            if how == "select":
+                gw["graph"] = {**inner, "select": ["shown"]}
+            else:
+                gw["renames"] = [{"kind": "outputs", "map": {"hid": "hid_out"}}]
+                exposed = "hid_out"
+            for i in funcs[:3]:
+                ctx2 = Ctx(compact=True)
+                ok = variant(i, wait_for=list(nodes[i].get("wait_for", [])) + [exposed]) + [gw]
+                _expect_accepted(f"{flaw} ({how}) node #{i} waits for the exposed name {exposed!r}", lambda ok=ok, ctx2=ctx2: _construct(ctx2, ok, nested=False))
+                run(f"({how}) node #{i} waits for 'hid', which only exists inside the nested graph", variant(i, wait_for=list(nodes[i].get("wait_for", [])) + ["hid"]) + [gw], i, nested_off=True)
     elif flaw == "wait_for_unproduced":
         for i in range(len(nodes)):
             run(f"node #{i} waits for a name nobody produces", variant(i, wait_for=list(nodes[i].get("wait_for", [])) + ["never_produced"]), i)
